@@ -422,6 +422,12 @@ fn rejection_f64(d: &mut Draw) -> Outcome {
         1 => {
             let bad = if at_boundary { PI } else { PI + beyond };
             must_panic!(perspective(Rad(bad), a, n, f), "perspective-accepts-fovy>=pi", format!("perspective(fovy = {})", bad));
+            // not a number, infinite: not inside (0, pi) either (Rad and Deg, and the struct conversion)
+            let nn = d.pick(&[f64::NAN, -f64::NAN, f64::INFINITY, f64::NEG_INFINITY]);
+            must_panic!(perspective(Rad(nn), a, n, f), "perspective-accepts-fovy-not-in-(0,pi)", format!("perspective(fovy = {:?})", nn));
+            must_panic!(cgmath::perspective(cgmath::Deg(nn), a, n, f), "perspective-accepts-fovy-not-in-(0,pi)", format!("perspective(fovy = Deg({:?}))", nn));
+            must_panic!(Matrix4::<f64>::from(PerspectiveFov { fovy: Rad(nn), aspect: a, near: n, far: f }), "perspective-accepts-fovy-not-in-(0,pi)", format!("Matrix4::from(PerspectiveFov {{ fovy: {:?}, .. }})", nn));
+            must_panic!(cgmath::perspective(Rad(nn as f32), a as f32, n as f32, f as f32), "perspective-accepts-fovy-not-in-(0,pi)", format!("perspective::<f32>(fovy = {:?})", nn));
             "perspective-fovy>=pi"
         }
         2 => {
@@ -466,6 +472,8 @@ fn rejection_f64(d: &mut Draw) -> Outcome {
         10 => {
             let bad = if at_boundary { PI } else { PI + beyond };
             must_panic!(planar(Rad(bad), a, h, n, f), "planar-accepts-fovy>=pi", format!("planar(fovy = {})", bad));
+            let nn = d.pick(&[f64::NAN, -f64::NAN, f64::INFINITY, f64::NEG_INFINITY]);
+            must_panic!(planar(Rad(nn), a, h, n, f), "planar-accepts-fovy-not-in-(-pi,pi)", format!("planar(fovy = {:?})", nn));
             "planar-fovy>=pi"
         }
         11 => {
